@@ -324,39 +324,6 @@ Proof. intros H. unfold zdrop. apply skipn_length. Qed.
 
 (* ---- bufio.Scanner's loop, abstractly ----------------------------------------- *)
 
-Definition nonempty (l : bytes) : bool := match l with [] => false | _ :: _ => true end.
-
-(* [pend] = the bytes read and not yet consumed (buf[start:end]); [chunks] = what the reader
-   will still deliver, read by read; [eof] = the reader has reported EOF.  One iteration =
-   one iteration of Scan's loop: hand [pend] to the splitter if there is something to hand
-   over; deliver a token; otherwise read once more (after a header row as well: it is a nil
-   token), or stop at EOF.  The buffer is unbounded (no record exceeds the maximum) and
-   nothing lies behind the data (tokens do not depend on it, [scan_accounting]). *)
-Fixpoint arun (fuel : nat) (c : csv_cfg) (s : csv_st) (pend : bytes) (chunks : list bytes)
-  (eof : bool) : list event :=
-  match fuel with
-  | O => []
-  | S f =>
-    let more (s : csv_st) (pend : bytes) :=
-      if eof then []
-      else match chunks with
-           | [] => arun f c s pend [] true
-           | ch :: rest => arun f c s (pend ++ ch) rest false
-           end in
-    if nonempty pend || eof
-    then
-      match scan c s pend [] 0 eof with
-      | (s', ORecord adv tok fields) => ERecord tok fields :: arun f c s' (zdrop adv pend) chunks eof
-      | (s', OHeader adv names) => EHeader names :: more s' (zdrop adv pend)
-      | (s', ONeed) => more s' pend
-      | _ => []
-      end
-    else more s pend
-  end.
-
-Definition msr (pend : bytes) (chunks : list bytes) (eof : bool) : nat :=
-  (2 * (length pend + length (concat chunks)) + length chunks + (if eof then 0 else 1))%nat.
-
 Lemma read_all_nil f c s : read_all f c s [] = [].
 Proof.
   destruct f as [|f]; [reflexivity|]. cbn [read_all]. unfold scan. cbn [prefix_of bom].
